@@ -218,6 +218,48 @@ def revalidate(args):
     return 0
 
 
+def summary(args):
+    """Rewrite seeded/SUMMARY.md from the meta.json files."""
+    import re
+
+    rows, own, other, rest = [], 0, 0, []
+    for sid in sorted(os.listdir(os.path.join(HERE, "seeded"))):
+        mp = os.path.join(HERE, "seeded", sid, "meta.json")
+        if not os.path.exists(mp):
+            continue
+        meta = json.load(open(mp))
+        patch = open(os.path.join(HERE, "seeded", sid, "patch.diff")).read()
+        files = sorted({m.replace("src/gwf/", "") for m in re.findall(r"^\+\+\+ b/(\S+)", patch, re.M)})
+        det = meta.get("detected_by", {})
+        mine = det.get(f"{meta['property']}:quick", {}).get("rc") == 1
+        others = sorted(k.split(":")[0] for k, v in det.items() if v.get("rc") == 1 and not k.startswith(meta["property"] + ":"))
+        note = ""
+        if meta.get("on_head", {}).get("status") == "harmless-on-head":
+            note = "harmless on HEAD after a later repair"
+        elif meta.get("on_head", {}).get("status") == "patch-no-longer-applies":
+            note = "patch no longer applies to HEAD"
+        if meta.get("not_decided_by_property"):
+            note = "not decided by the property text (see meta.json)"
+        if mine:
+            own += 1
+        elif others:
+            other += 1
+        else:
+            rest.append(sid)
+        rows.append(f"| {sid} | {', '.join(files)} | {'yes' if mine else 'no'} | {','.join(others)} | {note} |")
+    with open(os.path.join(HERE, "seeded", "SUMMARY.md"), "w") as f:
+        f.write("# Seeded changes: detection by the quick tiers\n\n"
+                "Produced by independent sub-agents (property text + scratch worktree only), confirmed before adoption,\n"
+                "re-confirmed against HEAD with `tools/seeded.py revalidate`, run with `tools/seeded.py run --scratch`;\n"
+                "this table is written by `tools/seeded.py summary`. <ID>-1..2 first round, -3..4 second, -5..6 third, -7..8 fourth.\n\n"
+                "| id | files touched | own check | other checks that detect it | note |\n|---|---|---|---|---|\n")
+        f.write("\n".join(rows) + "\n\n")
+        f.write(f"{len(rows)} changes: {own} detected by the check of their own property, {other} more by a neighbouring check, "
+                f"undetected: {rest}.\n")
+    print(f"{len(rows)} changes: own {own}, neighbour {other}, undetected {rest}")
+    return 0
+
+
 def main():
     ap = argparse.ArgumentParser()
     sub = ap.add_subparsers(dest="cmd", required=True)
@@ -235,8 +277,9 @@ def main():
     r.add_argument("--jobs", type=int, default=5)
     v = sub.add_parser("revalidate")
     v.add_argument("ids", nargs="*")
+    sub.add_parser("summary")
     args = ap.parse_args()
-    sys.exit({"adopt": adopt, "run": run, "revalidate": revalidate}[args.cmd](args))
+    sys.exit({"adopt": adopt, "run": run, "revalidate": revalidate, "summary": summary}[args.cmd](args))
 
 
 main()
